@@ -255,7 +255,7 @@ func RaceWorkload(reps int) {
 				res := runVerifier(in.Clone(), engine.Options{Face: face})
 				mu2.Lock()
 				wcRuns++
-				if res.Verdict != engine.Accept {
+				if !res.AcceptedHonestly() {
 					wcBad++
 				}
 				mu2.Unlock()
@@ -399,7 +399,7 @@ func init() {
 								pih := ref.HashOut{randGL(r), randGL(r), randGL(r), randGL(r)}
 								wantV := ref.EvalUnfiltered(spec, ref.Vars{Constants: consts, Wires: wires, PIHash: pih})
 								gotV, res := evalGateCircuit(id, consts, wires, pih)
-								if res.Verdict != engine.Accept || len(gotV) != len(wantV) {
+								if !res.AcceptedHonestly() || len(gotV) != len(wantV) {
 									differs = true
 									break
 								}
@@ -479,10 +479,17 @@ func init() {
 						// identifiers are resolved when the circuit is defined: the refusal may come there,
 						// but the proof must not verify against such a description
 						in2 := in.Restrict(1).Clone()
-						in2.Common = cdRead
+						in2.Common.GateIds = cdRead.GateIds // the gate list as read (the rest stays the k=1 restriction)
+						in2.Common.SelectorsInfo = cdRead.SelectorsInfo
 						res := runVerifier(in2, engine.Options{Face: engine.Native})
+						if c.Int("k") == 0 {
+							// control: the restriction itself is accepted with the genuine list
+							if ctl := runVerifier(in.Restrict(1).Clone(), engine.Options{Face: engine.Native}); !ctl.AcceptedHonestly() {
+								return fw.Inconcl("control run of the k=1 restriction: " + resStr(ctl))
+							}
+						}
 						o.Events += events(res)
-						if res.Verdict != engine.Accept {
+						if !res.AcceptedHonestly() {
 							refused = true
 							o.Inc("unsupported_gate_refused_at_definition")
 						}
